@@ -99,18 +99,38 @@ theorem inUnit_ok (r : IntTy) (hr : r ∈ IntTy.all) (k : Nat) (v : Int) (hv : r
     have hrr : IntTy.common r r = r := by unfold IntTy.common; simp
     exact asRep_ok r r (by rw [hrr]; exact hr) hr k v (by rw [hrr]; exact hv) (by rw [hrr]; exact hf) hf
 
-theorem usingOwn_ok {α : Type} (r1 r2 : IntTy) (h1 : r1 ∈ IntTy.all) (h2 : r2 ∈ IntTy.all)
+/-- `rep_cast<C>(q)` into the common rep of two reps of equal signedness is exact. -/
+theorem repCast_to_common_ok (r1 r2 : IntTy) (h1 : r1 ∈ IntTy.all) (h2 : r2 ∈ IntTy.all) (hs : r1.signed = r2.signed)
+    (v : Int) (hv : r1.inRange v) : repCast r1 (IntTy.common r1 r2) v = ⟨.ok v, false, false⟩ := by
+  obtain ⟨hc, hlo, hhi, _, _, hcc, _, _, _⟩ := common_facts r1 h1 r2 h2 hs
+  have hvc : (IntTy.common r1 r2).inRange v := inRange_mono hlo hhi hv
+  unfold repCast
+  have := asRep_ok r1 (IntTy.common r1 r2) (by rw [hcc]; exact hc) hc 1 v (by rw [hcc]; exact hvc)
+    (by rw [hcc]; simpa using hvc) (by simpa using hvc)
+  simpa using this
+
+theorem repCast_to_common_ok' (r1 r2 : IntTy) (h1 : r1 ∈ IntTy.all) (h2 : r2 ∈ IntTy.all) (hs : r1.signed = r2.signed)
+    (v : Int) (hv : r2.inRange v) : repCast r2 (IntTy.common r1 r2) v = ⟨.ok v, false, false⟩ := by
+  obtain ⟨_, _, _, _, _, _, _, _, hsym⟩ := common_facts r1 h1 r2 h2 hs
+  have := repCast_to_common_ok r2 r1 h2 h1 hs.symm v hv
+  rw [hsym] at this
+  exact this
+
+/-- `%` / `<=>`: inside the scope both operands of the built-in operator are the exact scaled integers. -/
+theorem usingRepCast_ok {α : Type} (r1 r2 : IntTy) (h1 : r1 ∈ IntTy.all) (h2 : r2 ∈ IntTy.all)
     (hs : r1.signed = r2.signed) (k1 k2 : Nat) (v1 v2 : Int) (hv1 : r1.inRange v1) (hv2 : r2.inRange v2)
-    (hf : FitsOwn r1 r2 k1 k2 v1 v2) (f : IntTy → Int → Int → Res α) :
-    usingOwn r1 r2 k1 k2 v1 v2 f =
-      ⟨(f (IntTy.uac r1 r2) (v1 * k1) (v2 * k2)).val, (f (IntTy.uac r1 r2) (v1 * k1) (v2 * k2)).wrapped,
-       (f (IntTy.uac r1 r2) (v1 * k1) (v2 * k2)).narrowed⟩ := by
-  obtain ⟨hp, hlo1, hhi1, hlo2, hhi2, _, _⟩ := uac_facts r1 h1 r2 h2 hs
-  unfold usingOwn
+    (hf : FitsCommon r1 r2 k1 k2 v1 v2) (f : IntTy → Int → Int → Res α) :
+    usingRepCast r1 r2 k1 k2 v1 v2 f =
+      ⟨(f (modRep r1 r2) (v1 * k1) (v2 * k2)).val, (f (modRep r1 r2) (v1 * k1) (v2 * k2)).wrapped,
+       (f (modRep r1 r2) (v1 * k1) (v2 * k2)).narrowed⟩ := by
+  obtain ⟨hc, hlo1, hhi1, hlo2, hhi2, _⟩ := common_facts r1 h1 r2 h2 hs
+  obtain ⟨hp, hplo, hphi, _, _, _, _⟩ := uac_facts _ hc _ hc rfl
+  unfold usingRepCast modRep
   simp only []
-  rw [inUnit_ok r1 h1 k1 v1 hv1 hf.1, inUnit_ok r2 h2 k2 v2 hv2 hf.2]
-  have w1 := wrap_of_inRange _ hp _ (inRange_mono hlo1 hhi1 hf.1)
-  have w2 := wrap_of_inRange _ hp _ (inRange_mono hlo2 hhi2 hf.2)
+  rw [repCast_to_common_ok r1 r2 h1 h2 hs v1 hv1, repCast_to_common_ok' r1 r2 h1 h2 hs v2 hv2, andThen_ok, andThen_ok,
+    inUnit_ok _ hc k1 v1 (inRange_mono hlo1 hhi1 hv1) hf.1, inUnit_ok _ hc k2 v2 (inRange_mono hlo2 hhi2 hv2) hf.2]
+  have w1 := wrap_of_inRange _ hp _ (inRange_mono hplo hphi hf.1)
+  have w2 := wrap_of_inRange _ hp _ (inRange_mono hplo hphi hf.2)
   simp [w1, w2]
 
 /-- Own-rep scope implies common-rep scope (equal signedness). -/
@@ -151,19 +171,19 @@ theorem sub_val (r1 r2 : IntTy) (k1 k2 : Nat) (v1 v2 : Int) :
 
 theorem mod_val (r1 r2 : IntTy) (k1 k2 : Nat) (v1 v2 : Int) :
     (mod r1 r2 k1 k2 v1 v2).val =
-      match (ownPair r1 r2 k1 k2 v1 v2).val with
+      match (repCastPair r1 r2 k1 k2 v1 v2).val with
       | .ok (x, y) => (modIn (modRep r1 r2) x y).val
       | .ub w => .ub w := by
-  unfold mod ownPair usingOwn modRep
+  unfold mod repCastPair usingRepCast modRep
   simp only []
   split <;> simp_all
 
 theorem spaceship_val (r1 r2 : IntTy) (k1 k2 : Nat) (v1 v2 : Int) :
     (spaceship r1 r2 k1 k2 v1 v2).val =
-      match (ownPair r1 r2 k1 k2 v1 v2).val with
+      match (repCastPair r1 r2 k1 k2 v1 v2).val with
       | .ok (x, y) => .ok (compare x y)
       | .ub w => .ub w := by
-  unfold spaceship ownPair usingOwn
+  unfold spaceship repCastPair usingRepCast
   simp only []
   split <;> simp_all
 
